@@ -18,6 +18,12 @@ def check(pid, tier):
     ev = Evidence(pid, tier)
     out_lines, violations, machinery = [], [], []
     check_outbuf.run_engine(pid, tier, ev, violations, machinery)
+    # a static input serves, at every read, the value it fetched and converted first (Payload.tla, static links
+    # with unit conversion and both grid layouts; the second read is observed)
+    from .fn_engine import run_fn
+    run_fn(pid, ev, violations, machinery, "PayloadEmit", "Payload_Trace", ("payload_run", "run_case"),
+           lambda verdict, case: "C20", "payload-case", emit_env={"WHAT": "static"},
+           nontrivial=lambda t: t["obs"]["res"] == "ok")
     fams = FAMS_Q if tier == "quick" else FAMS_T
     r = mc(fams, "intended", "impl", ["NoRefusedPull"], ["AvailableAtUpdate", "OnlyAllowedChoices"])
     ev.add_mc("Sched/intended/" + "+".join(fams), r, {"families": fams})
@@ -77,4 +83,7 @@ def replay(pid, path):
         kind = json.load(f).get("kind")
     if kind == "outbuf-trace":
         return check_outbuf.replay(pid, path)
+    if kind == "payload-case":
+        from .fn_engine import replay_fn
+        return replay_fn(pid, path, "Payload_Trace", ("payload_run", "run_case"), lambda v, c: "C20")
     return check_sched.replay(pid, path)
